@@ -580,6 +580,35 @@ def oracle_procs(case, r):
     return oracle_whole(case, r)
 
 
+# ---- Lengauer-Tarjan under different walk orders (class DominatorTree): the graphs, the model and the oracle of C18
+def gen_dom(rng, tier, ctx):
+    from tools.props import c18
+    cases = c18.gen_random(rng, "quick", ctx)
+    if tier != "thorough":
+        cases = cases[:60]
+    return [{"graph": c, "salt": rand_salt(rng)} for c in cases]
+
+
+def impl_dom(c):
+    from tools.vlib import saltedhash
+    from tools.props import c18
+    saltedhash.install()
+    saltedhash.reset(c["salt"])
+    first = c18.impl(c["graph"])
+    saltedhash.reset(c["salt"] + 1)
+    second = c18.impl(c["graph"])
+    return {"idom": first, "again": second}
+
+
+def oracle_dom(c, r):
+    from tools.props import c18
+    if isinstance(r, Err):
+        return "harness failed: %s %s" % (r.name, r.msg[:200])
+    if r["idom"] != r["again"]:
+        return "dom_lt gives different immediate dominators when its sets are walked in another order (salts %d, %d)" % (c["salt"], c["salt"] + 1)
+    return c18.oracle(c["graph"], r["idom"])
+
+
 def site_stream(name, gen, impl, obs, coq_type, oracle, inp=None, inp_r=None):
     s = {"name": name, "gen": gen, "impl": impl, "coq_header": COQ_HEADER, "coq_type": coq_type, "coq_obs": obs, "model_vo": "Dad/OrderModel.vo",
          "pinned": False, "oracle": oracle, "shard": 300, "case_timeout": 20}
@@ -598,6 +627,8 @@ STREAMS = [
                      oracle_follow, inp=input_follow), canon=lambda r: r[0]),
     dict(site_stream("site-common-dominator", gen_cdom, impl_cdom, "obs_common_dom", "(list (Z * Z) * list (Z * Z)) * list Z", oracle_cdom, inp_r=input_cdom),
          canon=lambda r: r["result"]),
+    dict(site_stream("site-dominators", gen_dom, impl_dom, "obs_idom", "graph * Z", oracle_dom, inp=lambda c: __import__("tools.props.c18", fromlist=["x"]).coq_input(c["graph"])),
+         coq_header="Require Import V.Dad.DomModel.", model_vo="Dad/DomModel.vo", canon=lambda r: r["idom"], case_timeout=120, shard=60),
     {"name": "salted-hashes", "gen": gen_salted, "impl": impl_salted, "oracle": oracle_whole, "stats": stats_whole, "pinned": False, "case_timeout": 1500},
     {"name": "fresh-processes", "gen": gen_procs, "impl": impl_procs, "oracle": oracle_procs, "stats": stats_whole, "pinned": False, "case_timeout": 1800},
 ]
